@@ -32,7 +32,7 @@ TIERS = {
               # the union holders and all deviations once more in a process with another hash seed (set / dict iteration
               # orders differ) and under python -O (assert statements and __debug__ blocks removed)
               dict(roots="unionholder", K=1, KV=0, KU=0, shards=4, cfg="default@1@O"),
-              dict(roots="structure", K=0, KV=1, KU=0, shards=4, cfg="default@2@O"),
+              dict(roots="structure", K=0, KV=1, KU=0, shards=4, cfg="after_generator@2@O"),
               # ... through a converter the application supplied (all cattrs defaults), with warnings turned into errors
               dict(roots="all", K=0, KV=1, KU=0, shards=6, cfg="user@3@W"),
               # a pristine converter next to a converter the application made lenient, which sees every input first
@@ -106,6 +106,9 @@ def one_shard(args):
         sg, sd = common.tlc_stats(gen_text)
     t1 = time.time()
     denv = pkg_env(pkg_path)
+    if conv_cfg.startswith("after_generator"):
+        denv["PYTHONPATH"] = denv["PYTHONPATH"] + os.pathsep + common.REPO
+        denv["VERIF_LSP_JSON"] = os.path.join(common.REPO, "generator", "lsp.json")
     parts = conv_cfg.split("@")                                    # "<configuration>[@<PYTHONHASHSEED>[@O]]"
     denv["VERIF_CONV_CFG"] = parts[0]
     if len(parts) > 1 and parts[1]:
